@@ -44,6 +44,7 @@ def h_history(k=2, fresh=False, exclude=()):
 
     def harness():
         cbormodel.reset()
+        c06.reset_environment()
         stubs.HashLog.reset()
         c06.AesLog.CALLS, c06.AesLog.URANDOM = [], []
         fs.names, fs.contents, fs.writes = [], [], []
@@ -71,6 +72,13 @@ def h_history(k=2, fresh=False, exclude=()):
             for i in range(k):
                 n, r = c06.AesLog.URANDOM[i]
                 _, nonce, data, aad, out = c06.AesLog.CALLS[i]
+                if isinstance(n, tuple):
+                    # 96 random bits drawn as an integer: the IV must be its fixed-width 12-byte rendering
+                    ok = ok and n[1] == 96 and len(nonce) == 12
+                    if ok:
+                        ok = nonce == r.to_bytes(12, "big") or nonce == r.to_bytes(12, "little")
+                    r = nonce
+                    n = 12
                 exp_info, _ = c06.ref_info(__import__("vlib.refenc", fromlist=["x"]), kids[i], r)
                 ok = ok and n == 12 and nonce == r and data == pts[i] and infos[i] == exp_info
         return chx.conclude(ok, k=k, same_plaintext=same_pt)
@@ -106,6 +114,34 @@ def replay(obligation, params, cex):
         def __getattr__(self, name):
             return getattr(os, name)
 
+    # the entropy source is an input: the real code is run with os.urandom / secrets returning the solver's values (then real randomness)
+    import secrets as _secrets
+
+    def _val(v):
+        if isinstance(v, dict) and "__bytes__" in v:
+            return bytes.fromhex(v["__bytes__"])
+        return v
+
+    feed_bytes = [_val(cex[n]) for n in sorted(cex) if n.startswith("entropy") and isinstance(_val(cex[n]), bytes)]
+    feed_bits = [cex[n] for n in sorted(cex) if n.startswith("randbits") and isinstance(cex[n], int)]
+    real_randbits, real_token = _secrets.randbits, _secrets.token_bytes
+
+    def fed_urandom(n):
+        if feed_bytes and len(feed_bytes[0]) == n:
+            return feed_bytes.pop(0)
+        return real_urandom(n)
+
+    def fed_randbits(kbits):
+        if feed_bits and feed_bits[0] < 2**kbits:
+            return feed_bits.pop(0)
+        return real_randbits(kbits)
+
+    os.urandom = fed_urandom
+    _secrets.randbits = fed_randbits
+    _secrets.token_bytes = fed_urandom
+    env_set = {k[4:]: v for k, v in cex.items() if k.startswith("env_") and isinstance(v, str)}
+    saved_env = {k: os.environ.get(k) for k in env_set}
+    os.environ.update(env_set)
     try:
         kd = os.path.join(d, "keys")
         os.makedirs(kd)
@@ -132,11 +168,24 @@ def replay(obligation, params, cex):
             os.makedirs(od)
             import importlib
 
-            CE.main(encrypt_subcommand="encrypt-and-generate", encrypt_script=os.path.join(REPO, "ncs", "encrypt_script.py"), firmware=fw, key_name=keyname, key_id=7, context=kd, hash_alg="sha-256", kw_alg="direct", kms_script=os.path.join(REPO, "ncs", "basic_kms.py"), output_dir=od)
-            tagged = cbor2.loads(cbor2.loads(open(os.path.join(od, "suit_encryption_info.bin"), "rb").read()))
+            try:
+              if params.get("fresh", True):
+                CE.main(encrypt_subcommand="encrypt-and-generate", encrypt_script=os.path.join(REPO, "ncs", "encrypt_script.py"), firmware=fw, key_name=keyname, key_id=7, context=kd, hash_alg="sha-256", kw_alg="direct", kms_script=os.path.join(REPO, "ncs", "basic_kms.py"), output_dir=od)
+                tagged = cbor2.loads(cbor2.loads(open(os.path.join(od, "suit_encryption_info.bin"), "rb").read()))
+                content = open(os.path.join(od, "encrypted_content.bin"), "rb").read()
+              else:
+                # the history of the obligation: ONE encryptor object used for all calls
+                from suit_generator.suit_encrypt_script_base import SuitDigestAlgorithms, SuitKWAlgorithms
+
+                if i % (2 * (k + 2)) == 0:
+                    the_encryptor = CE._import_encryptor(os.path.join(REPO, "ncs", "encrypt_script.py"))
+                ct_, tag_, info_, _dg, _ln = the_encryptor.encrypt_and_generate(pt, keyname, 7, kd, SuitDigestAlgorithms.SHA_256, SuitKWAlgorithms.DIRECT, os.path.join(REPO, "ncs", "basic_kms.py"))
+                tagged = cbor2.loads(cbor2.loads(info_))
+                content = tag_ + ct_
+            except Exception as ex:  # noqa
+                return dict(reproduced=True, detail=f"call {i}: encryption of a valid input fails for this entropy output / environment: {type(ex).__name__}: {ex}")
             iv = tagged.value[1][5]
             ivs.append(iv)
-            content = open(os.path.join(od, "encrypted_content.bin"), "rb").read()
             try:
                 if AESGCM(bytes(range(32))).decrypt(iv, content[16:] + content[:16], refenc.enc_structure(tagged.value[0])) != pt:
                     return dict(reproduced=True, detail=f"call {i}: published IV does not decrypt the ciphertext to the plaintext")
@@ -150,4 +199,11 @@ def replay(obligation, params, cex):
     finally:
         import shutil
 
+        os.urandom = real_urandom
+        _secrets.randbits, _secrets.token_bytes = real_randbits, real_token
+        for k_, v_ in saved_env.items():
+            if v_ is None:
+                os.environ.pop(k_, None)
+            else:
+                os.environ[k_] = v_
         shutil.rmtree(d, ignore_errors=True)
